@@ -240,6 +240,28 @@ static void c08_run_all(void) {
   }
   /* the empty buffer */
   if (O.shard == 0) { uint8_t z = 0; c08_case(&z, 0); }
+  /* a recursive-descent client: each array callback decodes the next head from inside the callback; the decoder has no
+   * depth of its own, so every level answers as the first one does */
+  {
+    static const int depths[] = {2, 17, 300, 1023, 1024, 1025, 2049, 4100}; /* native stack: about 600 bytes per level under ASan */
+    for (size_t di = 0; di < sizeof depths / sizeof depths[0]; di++) {
+      if ((int)(di % (size_t)O.nshards) != O.shard) continue;
+      uint8_t desc[5] = {0xfe, 'R', (uint8_t)(depths[di] >> 16), (uint8_t)(depths[di] >> 8), (uint8_t)depths[di]};
+      if (!vh_case(desc, 5)) continue;
+      static const uint8_t top[2] = {0x81, 0x00};
+      int ctx;
+      rec_expected_ctx = &ctx;
+      rec_reset();
+      rec_deep_target = depths[di]; rec_deep_level = 0; rec_deep_ok = 0; rec_deep_first_bad = 0;
+      struct cbor_decoder_result r = cbor_stream_decode(top, 2, &rec_table, &ctx);
+      int ok = rec_deep_ok, bad = rec_deep_first_bad;
+      rec_deep_target = 0;
+      if (r.status != CBOR_DECODER_FINISHED || r.read != 1 || ok != depths[di])
+        vh_violation("not-reentrant", "a client that decodes nested heads from inside its callbacks, %d levels deep: %d inner calls answered FINISHED/read=1 (first other answer at level %d); the outermost call gave %s/read=%zu", depths[di], ok, bad, st_name(r.status), r.read);
+      VH_COUNT("recursive_descent_runs", 1);
+      vh_nontrivial(vh_hash(desc, 5));
+    }
+  }
   int hit = 0;
   for (int s = 0; s < S_NSLOTS; s++) {
     if (slot_hits[s]) hit++;
